@@ -242,6 +242,23 @@ def F34():
             f"after a second fit on 5 rows: {len(d.W)} categories, base-module counters {cnt}, wrapper counters {own}")
 
 
+def F36():
+    with quiet():
+        b = BARTMAP(FuzzyART(0.5, 0.01, 1.0), FuzzyART(0.5, 0.01, 1.0), 0.0)
+    try:
+        b.set_params(eta=1)
+        return False, "set_params(eta=1) accepted an int"
+    except AssertionError:
+        pass
+    if b.eta != 0.0:
+        return False, f"set_params(eta=1) raised but eta is now {b.eta!r}"
+    try:
+        b.set_params(module_b__rho=0.7)
+    except Exception as e:
+        return False, f"set_params(module_b__rho=0.7) raised {e!r}"
+    return b.module_b.params["rho"] == 0.7, "rejected value does not stay; a call without eta is accepted"
+
+
 ALL = {k: v for k, v in list(globals().items()) if k[0] == "F" and k[1:3].isdigit()}
 
 if __name__ == "__main__":
